@@ -181,7 +181,8 @@ def main(argv=None) -> int:
         )
     except Exception:  # noqa: BLE001
         traceback.print_exc()
-        return 2
+        if not lines:
+            return 2  # an invalid evidence file on a quiet run is a harness error
 
     _print_known(prop, excluded)
     print(f"[{prop} {tier} seed={seed}] evaluations={evaluations} generated={generated} "
